@@ -163,6 +163,18 @@ REGISTRY["C15"] = dict(
     explanation="Clauses C15-a..c of DESIGN.md §3 on MIR/HIR facts of the current tree and spec/css_named_colors.json. NOT decided: numeric conversions, rounding at .5 boundaries, colour-function identities.",
     assumptions=TRUSTED + ["spec/css_named_colors.json (npm color-name, cross-checked against prompt_toolkit) is the CSS Color 4 named-colour list"],
 )
+REGISTRY["C14"] = dict(
+    module="c14",
+    level="other",
+    technique="static analysis: registration-table extraction by abstract evaluation of the declare() functions; (function, position, name) extraction from argument getters; who-may-call rule for byte-level string operations",
+    claim=(
+        "Registry and signature clauses: (a) every sass:list/map/string member with a documented global alias is bound to the same fn item as that alias, no duplicate or underscore registrations; "
+        "(b) every constant (position, name) read by the list/map/string built-ins and every max_args equals the documented signature; "
+        "(c) str-length/slice/index/insert count positions with chars(), never with byte lengths or byte indices. NOT decided: index arithmetic, separator/bracket inference, error cases (value semantics)."
+    ),
+    explanation="Clauses C14-a..c of DESIGN.md §3 on MIR facts of the current tree and spec/builtin_{aliases,signatures}.json. NOT decided: the values the functions return.",
+    assumptions=TRUSTED + ["spec tables transcribed from the Sass documentation"],
+)
 
 UNBUILT = "check not built yet in this session (design in DESIGN.md §3); not claimed until its rules run clean on the pinned tree"
 NOT_APPLICABLE = {
